@@ -27,7 +27,7 @@ def run(ctx):
 
     # MC lemmas + generation: every state is one name.
     w = share(4)
-    jobs, dirs = names_jobs(ctx, d, ctx.tier, True, ["Lemmas", "Emit"], w)
+    jobs, dirs = names_jobs(ctx, d, ctx.tier, True, ["GenOK"], w)
     vjobs, _ = names_jobs(ctx, d, "mini" if q else "quick", True, ["Variants"], w, tag="mcv")
     par(ctx, jobs + vjobs)
 
